@@ -249,7 +249,7 @@ fn judge(s: &Spec, c1: &Case, o1: &Obs, o2: &Obs, o1b: &Obs, bracket: (u64, u64)
             check_auth_cookie(&mut |k, t| bad(&format!("refreshed-{k}"), t), a, sec.as_ref().unwrap(), second_case(s, None, None).cfg.client_addr, &name, uuid, &props(s.props), &target_id(s), bracket2);
         }
     } else {
-        if flag != Some(true) || auth_calls != 1 || success != Some(("Second_Verdict".to_string(), 0x2222_0000_0000_4000_8000_0000_0000_2222)) {
+        if flag != Some(true) || auth_calls == 0 || success != Some(("Second_Verdict".to_string(), 0x2222_0000_0000_4000_8000_0000_0000_2222)) {
             bad(&format!("stored-cookie-wrongly-accepted:{}", s.second), format!("second connection: flag {flag:?}, authentication calls {auth_calls}, Login Success {success:?}; expected re-authentication"));
         }
         // the second connection is itself freshly authenticated and routed
